@@ -172,6 +172,15 @@ fn build_dispatch(cfg: &[&str], w: BoxMakeWriter) -> Dispatch {
             other => panic!("bad format {}", other),
         };
     }
+    // `P1` (json): the formatter behind a per-layer filter (INFO) next to a layer that wants everything — spans and events
+    // above INFO exist, but not for the formatter
+    if flag('P') && cfg[0] == "json" {
+        use tracing_subscriber::Subscribe as _;
+        struct Everything;
+        impl<C: tracing::Collect> tracing_subscriber::Subscribe<C> for Everything {}
+        let l = opts!(base.json()).with_current_span(flag('c')).with_span_list(flag('S')).flatten_event(flag('F'));
+        return Dispatch::new(reg.with(l.with_filter(tracing_subscriber::filter::LevelFilter::INFO)).with(Everything));
+    }
     match cfg[0] {
         "full" => Dispatch::new(reg.with(opts!(base))),
         "compact" => Dispatch::new(reg.with(opts!(base.compact()))),
@@ -210,7 +219,9 @@ fn main() {
                     "ev" => {
                         let vals = parse_fields(op[3]);
                         let m = metas.get("event", op[2].parse().unwrap(), op[1].parse().unwrap(), true, &vals);
-                        with_values(m, &vals, |vs| d.event(&Event::new(m, vs)));
+                        // (as the macros do: the callsite's interest, then `enabled` — per-layer filters decide there)
+                        let i = d.register_callsite(m);
+                        if !i.is_never() && (i.is_always() || d.enabled(m)) { with_values(m, &vals, |vs| d.event(&Event::new(m, vs))); }
                     }
                     "pe" => {
                         let vals = vec![("boom".to_string(), V::Bomb)];
@@ -222,9 +233,12 @@ fn main() {
                         let k: usize = op[1].parse().unwrap();
                         let vals = parse_fields(op[5]);
                         let m = metas.get(&unhex_str(op[4]), op[3].parse().unwrap(), op[2].parse().unwrap(), false, &vals);
-                        let id = with_values(m, &vals, |vs| d.new_span(&span::Attributes::new(m, vs)));
-                        spans.insert(k, id);
-                        span_meta.insert(k, m);
+                        let i = d.register_callsite(m);
+                        if !i.is_never() && (i.is_always() || d.enabled(m)) {
+                            let id = with_values(m, &vals, |vs| d.new_span(&span::Attributes::new(m, vs)));
+                            spans.insert(k, id);
+                            span_meta.insert(k, m);
+                        }
                     }
                     "en" | "ex" | "cl" => {
                         let k: usize = op[1].parse().unwrap();
